@@ -83,6 +83,7 @@ package nyctalerts
 //@   ensures [no-metadata-unless-asked] !e.opts.AddNyctMetadata && !elevatorID(old(*ID)) ==> alert.DescriptionText == old(alert.DescriptionText) && (alert.DescriptionText != nil ==> *alert.DescriptionText == old(*alert.DescriptionText))
 //@   ensures [no-metadata-without-mercury-data] !hasExt(alert, "E_MercuryAlert") && !elevatorID(old(*ID)) ==> alert.DescriptionText == old(alert.DescriptionText) && (alert.DescriptionText != nil ==> *alert.DescriptionText == old(*alert.DescriptionText))
 //@   ensures [description-fresh-or-kept] alert.DescriptionText == old(alert.DescriptionText) || fresh(alert.DescriptionText)
+//@   ensures [an-existing-description-object-is-kept] old(alert.DescriptionText) != nil ==> alert.DescriptionText == old(alert.DescriptionText)
 //@   ensures [translations-fresh-or-same-array] alert.DescriptionText != nil ==> fresh(alert.DescriptionText.Translation) || (alert.DescriptionText == old(alert.DescriptionText) && obj(alert.DescriptionText.Translation) == old(obj(alert.DescriptionText.Translation)))
 //@   ensures [informed-entities-untouched] !elevatorID(old(*ID)) ==> alert.InformedEntity == old(alert.InformedEntity) && *ID == old(*ID)
 //@   assigns *ID, alert.Cause, alert.Effect, alert.InformedEntity, alert.DescriptionText, alert.DescriptionText.Translation, elems(alert.DescriptionText.Translation), eachval(e.elevatorAlerts).InformedEntity, entries(e.elevatorAlerts), since(e.elevatorAlerts, "*gtfsrt.EntitySelector")
